@@ -34,6 +34,7 @@ def run(prog, chk):
     chk.defer(rendering_is_written, prog, chk)
     chk.defer(asn1_value_reads, prog, chk)
     chk.defer(template_track_depth, prog, chk)
+    chk.defer(calendar_conversion_results, prog, chk)
     chk.defer(_run, prog, chk)
 
 
@@ -500,3 +501,29 @@ def template_track_depth(prog, chk):
                "nesting depth %s: highest tracker position %s, array length %d" % (dn, "-" if dn is None else dn + 1, room) if dn is not None else
                "the sub-template references form a cycle: the nesting, and with it the tracker position, is not bounded by the tables",
                loc=[g for g in prog.globals[n]][0].get("file", "src/ksi/tlv_template.c") + ":%s" % [g for g in prog.globals[n]][0].get("line"), nontrivial=bool(tm[n]))
+
+
+def calendar_conversion_results(prog, chk):
+    """gmtime_r / localtime_r / gmtime / localtime report a time they have no calendar date for by returning NULL and leave the result
+    structure as it was.  The times
+    rendered come from parsed (untrusted) integers of 64 bits.  Every call of these functions in the library has its result looked
+    at: a call that stands as a statement of its own hands an unset structure / an undefined buffer to what follows."""
+    from ksirules.status import ignored_results
+    chk.rule("C12.timeconv", "the result of every calendar conversion (gmtime_r, localtime_r, gmtime, localtime) is looked at before its output is used", floor=1)
+    # strftime is not in the list: whether its result fits is a matter of the format and the buffer at each site (the logger's 19
+    # characters into 32 octets always do), not of the value converted
+    NAMES = {"gmtime_r", "localtime_r", "gmtime", "localtime"}
+    n = 0
+    for fn in sorted(prog.all_functions(), key=lambda f: (f.unit, f.line)):
+        calls = [(b, i, c) for b, i, c in fn.calls() if c.get("fn") in NAMES]
+        if not calls:
+            continue
+        ign = {(b, i) for (b, i, c) in ignored_results(fn, lambda nm: nm in NAMES)}
+        for b, i, c in calls:
+            n += 1
+            chk.ob("C12.timeconv", "%s:%s" % (fn.name, c["fn"]), (b, i) not in ign,
+                   "the result of %s is used" % c["fn"] if (b, i) not in ign else
+                   "%s is called as a statement of its own: when it cannot convert (a time beyond the calendar / a result that does not fit) its output "
+                   "is unset, and the code that follows formats or returns it" % c["fn"], loc=fn.loc(fn.elem_line(b, i)), fn=fn)
+    if n < 1:
+        raise AnalysisBroken("C12.timeconv: no calendar conversion call found")
